@@ -263,4 +263,221 @@ Proof.
     + unfold JoinVar.mu; cbn. lia.
 Qed.
 
+(* ---------- the main goroutine ---------- *)
+Definition with_main (p:params) pc env l cs' vo' v ok : params :=
+  {| prods := prods p; chans := chans p; mpc := pc; menv := env; ob := ob p; oc := oc p;
+     log := log p; cd := cd p; ploc := l; cs := cs'; vo := vo'; cv := v; cok := ok; dls := dls p |}.
+
+Ltac open_cond' C :=
+  unfold JoinVar.Cond in C;
+  destruct C as (HLp & HLc & HLd & HLs & HLv & Hpc & Hwf & Henv & HP & HL & HM & Hoc & Hcd & Hlo).
+
+Ltac pcgoal := unfold pc_of, var_case_pc, var_end in *; try lia.
+
+(* the state after a local step of main *)
+Lemma main_local p pc' :
+  length (prods p) = N ->
+  set_thr (mk p) N (TProg 0 pc' (menv p)) =
+  mk (with_main p pc' (menv p) (ploc p) (cs p) (vo p) (cv p) (cok p)).
+Proof.
+  intros HLp. unfold set_thr, JoinVar.mk, with_main; cbn [thr chs wg panicked prods chans mpc menv ob oc log cd].
+  rewrite (upd_at_main _ _ _ _ HLp). reflexivity.
+Qed.
+
+Definition with_all (p:params) pc env ob' oc' l cs' vo' v ok dls' : params :=
+  {| prods := prods p; chans := chans p; mpc := pc; menv := env; ob := ob'; oc := oc';
+     log := log p; cd := cd p; ploc := l; cs := cs'; vo := vo'; cv := v; cok := ok; dls := dls' |}.
+
+Lemma main_env p pc' env' l cs' vo' v ok :
+  length (prods p) = N ->
+  set_thr (mk p) N (TProg 0 pc' env') = mk (with_main p pc' env' l cs' vo' v ok).
+Proof.
+  intros HLp. unfold set_thr, JoinVar.mk, with_main; cbn [thr chs wg panicked prods chans mpc menv ob oc log cd].
+  rewrite (upd_at_main _ _ _ _ HLp). reflexivity.
+Qed.
+
+Lemma main_out p pc' env' ob' oc' l cs' vo' v ok dls' :
+  length (prods p) = N -> length (chans p) = N ->
+  set_ch (set_thr (mk p) N (TProg 0 pc' env')) N {| cap := cout; buf := ob'; closed := oc' |}
+  = mk (with_all p pc' env' ob' oc' l cs' vo' v ok dls').
+Proof.
+  intros HLp HLc. unfold set_ch, set_thr, JoinVar.mk, with_all;
+    cbn [thr chs wg panicked prods chans mpc menv ob oc log cd].
+  rewrite (upd_at_main _ _ _ _ HLp), (upd_at_out _ _ _ HLc). reflexivity.
+Qed.
+
+Lemma main_local_step p : Cond p ->
+  local_step f PV (TProg 0 (mpc p) (menv p)) =
+  match main_instr N (ploc p) with
+  | Br b pt pf => TProg 0 (if getb (menv p) b then pt else pf) (menv p)
+  | BrNil c pn pnn => TProg 0 (match getc (menv p) c with None => pn | Some _ => pnn end) (menv p)
+  | Jmp pc' => TProg 0 pc' (menv p)
+  | SetNil c => TProg 0 (S (mpc p)) (upd (menv p) c (VC None))
+  | _ => TProg 0 (mpc p) (menv p)
+  end.
+Proof.
+  intros C. open_cond' C.
+  unfold local_step, instr_at, code, JoinVar.PV. cbn [nth].
+  rewrite Hpc at 1. rewrite (instr_at_loc N (ploc p) Hwf).
+  destruct (ploc p) as [t| |i off| | |]; cbn [main_instr]; try reflexivity.
+  destruct off as [|[|[|[|off]]]]; reflexivity.
+Qed.
+
+Lemma hold_nocase l v ok j :
+  (forall i off, l <> LCase i off) -> hold l v ok j = [] .
+Proof. intros H. destruct l; try reflexivity. exfalso. eapply H; eauto. Qed.
+
+(* after splitting Cond: discharge everything that is unchanged *)
+Ltac cond_auto p HP Hoc El :=
+  unfold JoinVar.Cond, with_main; cbn [prods chans mpc menv ob oc log cd ploc cs vo cv cok dls];
+  repeat match goal with |- _ /\ _ => split end; light;
+  try solve [cbn; lia]; try solve [pcgoal];
+  try solve [intros j Hj; apply (poolv_frame p _ j); cbn [prods chans dls cs ploc cv cok with_main]; auto;
+             rewrite El; reflexivity];
+  try solve [try rewrite El in Hoc; split; intros X; [apply Hoc in X; discriminate|discriminate]].
+
+Ltac mu_auto El :=
+  unfold JoinVar.mu, with_main; cbn [prods chans cs ploc cok ob cd]; rewrite ?El; cbn [locw]; try lia.
+
+Lemma step_main p s' : Cond p -> step f PV (mk p) (Tau N) = Some s' -> Good p s'.
+Proof.
+  intros C H. pose proof C as C0. pose proof (main_wants p C) as W.
+  pose proof (main_local_step p C) as LS.
+  open_cond' C.
+  unfold step in H; cbn [panicked JoinVar.mk thr chs wg] in H.
+  rewrite (at_main _ _ _ _ HLp) in H. rewrite W in H. clear W.
+  unfold JoinVar.LocI in HL.
+  destruct (ploc p) as [k| |i off| | |] eqn:El; cbn [main_instr wf_loc] in *.
+  - (* nil test k *)
+    destruct HL as [Hk Hnil]. rewrite LS in H. clear LS. inv_some.
+    rewrite Henv at 1. rewrite (getc_slot _ _ k HLs Hk).
+    destruct (HP k Hk) as (cp & its & r & d & ch & dl & slot & E1 & E2 & E3 & E4 & E5 & E6 & E7 & E8 & E9 & E10 & E11).
+    rewrite E6. destruct E10 as [->|(-> & _)]; cbn [slot_cid]; rewrite main_local by exact HLp.
+    + (* non-nil: go to the select *)
+      exists (with_main p N (menv p) LSel (cs p) (vo p) (cv p) (cok p)).
+      split; [reflexivity|]. split.
+      * cond_auto p HP Hoc El.
+        unfold JoinVar.LocI; cbn [ploc cs]. exists k. auto.
+      * mu_auto El.
+    + (* nil: next test, or leave the loop *)
+      change (match N with 0 => false | S m' => k =? m' end) with (S k =? N).
+      destruct (S k =? N) eqn:Ek.
+      * apply Nat.eqb_eq in Ek.
+        exists (with_main p (S (var_end N)) (menv p) LClose (cs p) (vo p) (cv p) (cok p)).
+        split; [reflexivity|]. split.
+        -- cond_auto p HP Hoc El.
+           unfold JoinVar.LocI, all_nil; cbn [ploc cs]. intros j Hj.
+           destruct (Nat.eq_dec j k) as [->|Hne]; [exact E6|apply Hnil; lia].
+        -- mu_auto El.
+      * apply Nat.eqb_neq in Ek.
+        exists (with_main p (S k) (menv p) (LTest (S k)) (cs p) (vo p) (cv p) (cok p)).
+        split; [reflexivity|]. split.
+        -- cond_auto p HP Hoc El.
+           unfold JoinVar.LocI; cbn [ploc cs]. split; [lia|]. intros j Hj.
+           destruct (Nat.eq_dec j k) as [->|Hne]; [exact E6|apply Hnil; lia].
+        -- mu_auto El.
+  - discriminate.
+  - (* inside the case block of input i *)
+    destruct HL as (Hi & Ho & Lv & Lok & L3 & L1 & Lslot & Lcl).
+    assert (Hocf : oc p = false).
+    { destruct (oc p); [|reflexivity]. destruct Hoc as [Hoc1 _]. specialize (Hoc1 eq_refl). discriminate. }
+    destruct off as [|[|[|[|[|off]]]]]; try lia; cbn [main_instr] in *.
+    + (* 0: if !ok *)
+      rewrite LS in H. clear LS. inv_some.
+      assert (Hb : getb (menv p) (N + 2 + 2 * i) = cok p).
+      { unfold getb. rewrite Henv. replace (N + 2 + 2 * i) with (N + 1 + (2 * i + 1)) by lia.
+        rewrite (env_vo N _ _ HLs), Lok. reflexivity. }
+      change (i + (i + 0)) with (2 * i). rewrite Hb. destruct (cok p) eqn:Eok.
+      * rewrite (main_env p _ _ (LCase i 3) (cs p) (vo p) (cv p) true) by exact HLp.
+        eexists; split; [reflexivity|]. split.
+        -- cond_auto p HP Hoc El.
+           ++ intros j Hj. apply (poolv_frame p _ j); cbn [prods chans dls cs ploc cv cok with_main]; auto.
+              rewrite El, Eok. cbn [hold]. rewrite andb_true_r. reflexivity.
+        -- mu_auto El. rewrite Eok. lia.
+      * rewrite (main_env p _ _ (LCase i 1) (cs p) (vo p) (cv p) false) by exact HLp.
+        eexists; split; [reflexivity|]. split.
+        -- cond_auto p HP Hoc El.
+           ++ intros j Hj. apply (poolv_frame p _ j); cbn [prods chans dls cs ploc cv cok with_main]; auto.
+              rewrite El, Eok. cbn [hold]. rewrite andb_false_r. reflexivity.
+        -- mu_auto El. rewrite Eok. lia.
+    + (* 1: c_i = nil *)
+      rewrite LS in H. clear LS. inv_some.
+      specialize (L1 eq_refl). assert (L01 : 1 <= 1) by lia.
+      destruct (Lcl L01 L1) as (ch' & r' & d' & X1 & X2 & X3 & X4 & X5).
+      rewrite Henv at 1. rewrite (env_upd_c N _ _ HLs i (VC None) Hi).
+      rewrite (main_env p _ _ (LCase i 2) (upd (cs p) i (VC None)) (vo p) (cv p) (cok p)) by exact HLp.
+      pose proof (sumw_upd (slotw N) (cs p) i _ (VC None) (Lslot L01)) as Hw. cbn in Hw.
+      eexists; split; [reflexivity|]. split.
+      * cond_auto p HP Hoc El.
+        -- rewrite upd_length. exact HLs.
+        -- intros j Hj. destruct (Nat.eq_dec j i) as [->|Hne].
+           ++ destruct (HP i Hi) as (cp & its & r & d & ch & dl & slot & E1 & E2 & E3 & E4 & E5 & E6 & E7 & E8 & E9 & E10 & E11).
+              rewrite X1 in E3. injection E3 as <-. rewrite X2 in E2. injection E2 as <- <-.
+              exists cp, its, r', d', ch', dl, (VC None).
+              cbn [prods chans dls cs ploc cv cok with_main].
+              rewrite nth_error_upd_eq by lia.
+              repeat split; auto.
+              rewrite E11; rewrite ?El; reflexivity.
+           ++ apply (poolv_frame p _ j); cbn [prods chans dls cs ploc cv cok with_main]; auto.
+              ** apply nth_error_upd_neq; auto.
+              ** rewrite El. rewrite !hold_other by auto. reflexivity.
+      * mu_auto El.
+    + (* 2: end of the if *)
+      rewrite LS in H. clear LS. inv_some.
+      rewrite (main_env p _ _ (LCase i 4) (cs p) (vo p) (cv p) (cok p)) by exact HLp.
+      eexists; split; [reflexivity|]. split.
+      * cond_auto p HP Hoc El.
+      * mu_auto El.
+    + (* 3: out <- v_i *)
+      cbn [chs JoinVar.mk] in H. rewrite (at_out _ _ _ HLc) in H. cbn [closed buf cap] in H.
+      rewrite Hocf in H.
+      destruct (length (ob p) <? cout) eqn:E; [|discriminate]. inv_some. cbn [after_send].
+      destruct (HP i Hi) as (cp & its & r & d & ch & dl & slot & E1 & E2 & E3 & E4 & E5 & E6 & E7 & E8 & E9 & E10 & E11).
+      rewrite (main_out p _ _ _ _ (LCase i 4) (cs p) (vo p) (cv p) (cok p) (upd (dls p) i (dl ++ [cv p]))) by assumption.
+      apply Nat.ltb_lt in E.
+      eexists; split; [reflexivity|]. split.
+      * unfold JoinVar.Cond, with_all; cbn [prods chans mpc menv ob oc log cd ploc cs vo cv cok dls].
+        repeat match goal with |- _ /\ _ => split end; light; try solve [pcgoal].
+        -- rewrite upd_length. exact HLd.
+        -- intros j Hj. destruct (Nat.eq_dec j i) as [->|Hne].
+           ++ exists cp, its, r, d, ch, (dl ++ [cv p]), slot.
+              cbn [prods chans dls cs ploc cv cok with_all].
+              rewrite nth_error_upd_eq by lia. repeat split; auto.
+              rewrite E11; rewrite ?El; cbn [hold]. rewrite Nat.eqb_refl. rewrite <- !app_assoc. reflexivity.
+           ++ apply (poolv_frame p _ j); cbn [prods chans dls cs ploc cv cok with_all]; auto.
+              ** apply nth_error_upd_neq; auto.
+              ** rewrite El. rewrite !hold_other by auto. reflexivity.
+        -- rewrite app_assoc. apply Merge_snoc; assumption.
+        -- intros X. destruct (Hcd X) as [Y _]. rewrite Hocf in Y. discriminate.
+        -- rewrite app_length. cbn. lia.
+      * unfold JoinVar.mu, with_all; cbn [prods chans cs ploc cok ob cd]. rewrite El. cbn [locw].
+        rewrite app_length. cbn. lia.
+    + (* 4: end of the case *)
+      rewrite LS in H. clear LS. inv_some.
+      rewrite (main_env p _ _ LEnd (cs p) (vo p) (cv p) (cok p)) by exact HLp.
+      eexists; split; [reflexivity|]. split.
+      * cond_auto p HP Hoc El.
+      * mu_auto El.
+  - (* end of the loop body *)
+    rewrite LS in H. clear LS. inv_some.
+    rewrite (main_env p _ _ (LTest 0) (cs p) (vo p) (cv p) (cok p)) by exact HLp.
+    eexists; split; [reflexivity|]. split.
+    + cond_auto p HP Hoc El.
+    + mu_auto El.
+  - (* close(out) *)
+    assert (Hocf : oc p = false).
+    { destruct (oc p); [|reflexivity]. destruct Hoc as [Hoc1 _]. specialize (Hoc1 eq_refl). discriminate. }
+    cbn [chs JoinVar.mk] in H. rewrite (at_out _ _ _ HLc) in H. cbn [closed buf cap] in H.
+    rewrite Hocf in H. inv_some. cbn [after_close].
+    rewrite (main_out p _ _ _ _ LHalt (cs p) (vo p) (cv p) (cok p) (dls p)) by assumption.
+    eexists; split; [reflexivity|]. split.
+    + unfold JoinVar.Cond, with_all; cbn [prods chans mpc menv ob oc log cd ploc cs vo cv cok dls].
+      repeat match goal with |- _ /\ _ => split end; light; try solve [pcgoal].
+      * intros j Hj. apply (poolv_frame p _ j); cbn [prods chans dls cs ploc cv cok with_all]; auto.
+        rewrite El. reflexivity.
+      * intros X. destruct (Hcd X) as [Y _]. rewrite Hocf in Y. discriminate.
+    + unfold JoinVar.mu, with_all; cbn [prods chans cs ploc cok ob cd]. rewrite El. cbn [locw]. lia.
+  - discriminate.
+Qed.
+
 End JVP.
